@@ -65,11 +65,9 @@ def model_check_book(ctx):
         if "idx' = live" not in t:
             raise vlib.Infra("IndexBook.tla: text of ApplyEnd not found for the vacuity check")
         open(f, "w").write(t.replace("idx' = live /\\ rem' = 0", "idx' = idx /\\ rem' = 0"))
-        try:
-            p = subprocess.run(["tlapm", "--threads", "8", "IndexBookProof.tla"], cwd=d, capture_output=True, text=True, timeout=900)
-        except subprocess.TimeoutExpired:
+        out = vlib.run_in_own_group(["tlapm", "--threads", "8", "IndexBookProof.tla"], d, 900)
+        if out is None:
             raise vlib.Infra("tlapm timed out on the broken IndexBook")
-        out = (p.stdout or "") + (p.stderr or "")
         if "obligations failed" not in out:
             raise vlib.Infra("tlapm did not reject the broken IndexBook (vacuous proof?):\n" + out[-1500:])
         ctx.log("TLAPS IndexBookProof on a broken ApplyEnd: rejected")
